@@ -738,16 +738,8 @@ func closureCloses(clos *Term, conn string) bool {
 	if clos == nil || clos.Fn == nil {
 		return false
 	}
-	for _, b := range clos.Fn.Blocks {
-		for _, in := range b.Instrs {
-			if c, ok := in.(ssa.CallInstruction); ok {
-				if f := c.Common().StaticCallee(); f != nil && f.Name() == "Close" {
-					return true
-				}
-			}
-		}
-	}
-	return false
+	// directly, or through a method of a small type that holds the socket (socket.shutdown())
+	return reachesCall(clos.Fn, func(n string) bool { return strings.HasSuffix(n, ".Close") }, map[*ssa.Function]bool{})
 }
 
 // ---------------------------------------------------------------------------------------
@@ -982,6 +974,16 @@ func collectAccessesIn(fn *ssa.Function, target ssa.Value, out *[]access, after 
 				}
 			case *ssa.MakeClosure:
 				// nested closures capturing the same variable (not started with go) run in this goroutine
+				// the names of shared variables (mutexes among them) carry over into the nested closure
+				if nf0, ok := x.Fn.(*ssa.Function); ok && lockAlias != nil {
+					for bj, bv := range x.Bindings {
+						if k, has := lockAlias[allocOrigin(bv)]; has && bj < len(nf0.FreeVars) {
+							lockAlias[nf0.FreeVars[bj]] = k
+						} else if k, has := lockAlias[bv]; has && bj < len(nf0.FreeVars) {
+							lockAlias[nf0.FreeVars[bj]] = k
+						}
+					}
+				}
 				for bi, bv := range x.Bindings {
 					if bv == target {
 						nf := x.Fn.(*ssa.Function)
